@@ -211,6 +211,9 @@ def run_shard(pid, sel, spec, ctx):
                 # always decodable again: linear chains, deep limits
                 text, tables = reggen.random_config(r, max_text=12, max_hits=2, n_texts=3, self_repro=True)
                 k = r.choice([1, 2, 3, 5, 8, 12])
+            elif i % 10 == 5:
+                text, tables = reggen.random_config(r, max_text=320, max_hits=6)
+                k = r.choice([1, 2, 3])
             else:
                 text, tables = reggen.random_config(r)
                 k = r.choice([-2, 0, 1, 1, 2, 2, 3, 3, 4, 5, 6])
